@@ -7,6 +7,7 @@ PROPS = {
     "C17": dict(pkg="chain", level="exploration", stages=[
         direct("exhaustive", "TestC17Exhaustive"),
         rapid("rapid", "TestC17", dict(shards=8, checks=1500), dict(shards=16, checks=40000, timeout=3000)),
+        rapid("chain", "TestC17Chain", dict(shards=8, checks=40), dict(shards=16, checks=1500, timeout=5000)),
         fuzz("fuzz", "FuzzC17Ops", 180),
     ]),
     "C20": dict(pkg="wallet", level="exploration", stages=[
